@@ -464,6 +464,10 @@ HELPERS = ("variables", "variable_paths", "variable_segments", "global_variables
            "global_variable_segments", "filter_names", "tag_names")
 
 
+def _an_deep(a):
+    return an_deep(a)
+
+
 def _analyze_case(i, partials):
     name = AN_SKEL[i]
     if name not in T:
@@ -471,11 +475,11 @@ def _analyze_case(i, partials):
     t = T[name]
     ok = True
     try:
-        a = ("ok", an_snapshot(t.analyze(include_partials=partials)))
+        a = ("ok", an_snapshot(t.analyze(include_partials=partials)), _an_deep(t.analyze(include_partials=partials)))
     except Exception as e:
         a = ("err", type(e).__name__)
     try:
-        b = ("ok", an_snapshot(drive(t.analyze_async(include_partials=partials))))
+        b = ("ok", an_snapshot(drive(t.analyze_async(include_partials=partials))), _an_deep(drive(t.analyze_async(include_partials=partials))))
     except Exception as e:
         b = ("err", type(e).__name__)
     ok = ok and a == b
@@ -563,9 +567,38 @@ def _corpus_check(w2, w1, leaf, d):
     return bad or None
 
 
+def an_deep(a):
+    """Everything an analysis reports, spans included (template name and index of every occurrence)."""
+    out = []
+    for name in ("variables", "globals", "locals"):
+        out.append((name, sorted((str(k), sorted((str(v), str(v.span.template_name), v.span.index) for v in vs)) for k, vs in getattr(a, name).items())))
+    for name in ("filters", "tags"):
+        out.append((name, sorted((str(k), sorted((str(sp.template_name), sp.index) for sp in sps)) for k, sps in getattr(a, name).items())))
+    return out
+
+
+def _corpus_analyze_check(w2, w1, leaf, d):
+    if d != 0:
+        return None
+    t = _corpus.template(_CENVS["strict"], w2, w1, leaf)
+    if t is None:
+        return None
+    bad = {}
+    for partials in (True, False):
+        a = _corpus.outcome(lambda: an_deep(t.analyze(include_partials=partials)))
+        b = _corpus.outcome(lambda: an_deep(drive(t.analyze_async(include_partials=partials))))
+        if a != b:
+            diff = [(x, y) for x, y in zip(a[1], b[1]) if x != y] if a[0] == b[0] == "ok" else (a, b)
+            bad["include_partials=%s" % partials] = {"analyze vs analyze_async (differing maps)": repr(diff)[:600]}
+    return bad or None
+
+
+c01_corpus_analyze, _det_a = _corpus.mk_condition("c01_corpus_analyze", _corpus_analyze_check)
 c01_corpus, _det = _corpus.mk_condition("c01_corpus", _corpus_check)
 DETAIL = globals().get("DETAIL", {})
 DETAIL["c01_corpus"] = _det
+DETAIL["c01_corpus_analyze"] = _det_a
+CONDITIONS.append({"fn": "c01_corpus_analyze", "quick": 120, "thorough": 240, "sel_only": True, "bounds": _corpus.BOUNDS + "; analyze() vs analyze_async(), with and without partials, every reported span compared"})
 CONDITIONS.append({"fn": "c01_corpus", "quick": 180, "thorough": 300, "sel_only": True, "bounds": _corpus.BOUNDS + "; strict, lax, warn, autoescape, StrictUndefined and tight-limit environments"})
 
 ASSUMPTIONS = [
